@@ -7,7 +7,13 @@ use std::path::PathBuf;
 use std::process;
 use std::sync::Arc;
 use std::time::{Duration, Instant};
+#[cfg(resolved_verif)]
+use simseam::net::{TcpListener, UdpSocket};
+#[cfg(resolved_verif)]
+use simseam::signal::{signal, SignalKind};
+#[cfg(not(resolved_verif))]
 use tokio::net::{TcpListener, UdpSocket};
+#[cfg(not(resolved_verif))]
 use tokio::signal::unix::{signal, SignalKind};
 use tokio::sync::mpsc;
 use tokio::sync::RwLock;
@@ -549,5 +555,83 @@ async fn main() {
     if let Err(error) = serve_prometheus_endpoint_task(args.metrics_address).await {
         tracing::error!(?error, "could not bind HTTP TCP socket");
         process::exit(1);
+    }
+}
+
+/// Entry points for the verification harness: the same wiring as `main()`,
+/// minus CLI parsing, logging set-up, and the metrics endpoint.
+#[cfg(resolved_verif)]
+pub mod verif {
+    use super::*;
+
+    pub struct ServerConfig {
+        pub address: SocketAddr,
+        pub authoritative_only: bool,
+        pub protocol_mode: ProtocolMode,
+        pub upstream_dns_port: u16,
+        pub forward_address: Option<SocketAddr>,
+        pub cache_size: usize,
+        pub hosts_file: Vec<PathBuf>,
+        pub hosts_dir: Vec<PathBuf>,
+        pub zone_file: Vec<PathBuf>,
+        pub zones_dir: Vec<PathBuf>,
+    }
+
+    pub struct Server {
+        pub tcp_task: tokio::task::JoinHandle<()>,
+        pub udp_task: tokio::task::JoinHandle<()>,
+        pub reload_task: tokio::task::JoinHandle<()>,
+        pub prune_task: tokio::task::JoinHandle<()>,
+        pub zones_lock: Arc<RwLock<Zones>>,
+        pub cache: SharedCache,
+    }
+
+    /// Returns `None` where `main()` would exit with an error.
+    pub async fn start(config: ServerConfig) -> Option<Server> {
+        let args = Args {
+            address: config.address,
+            metrics_address: SocketAddr::from((Ipv4Addr::LOCALHOST, 9420)),
+            authoritative_only: config.authoritative_only,
+            protocol_mode: config.protocol_mode,
+            upstream_dns_port: config.upstream_dns_port,
+            forward_address: config.forward_address,
+            cache_size: config.cache_size,
+            hosts_file: config.hosts_file,
+            hosts_dir: config.hosts_dir,
+            zone_file: config.zone_file,
+            zones_dir: config.zones_dir,
+        };
+
+        let zones = load_zone_configuration(
+            &args.hosts_file,
+            &args.hosts_dir,
+            &args.zone_file,
+            &args.zones_dir,
+        )
+        .await?;
+
+        let udp = UdpSocket::bind(args.address).await.ok()?;
+        let tcp = TcpListener::bind(args.address).await.ok()?;
+
+        let listen_args = ListenArgs {
+            authoritative_only: args.authoritative_only,
+            protocol_mode: args.protocol_mode,
+            upstream_dns_port: args.upstream_dns_port,
+            forward_address: args.forward_address,
+            zones_lock: Arc::new(RwLock::new(zones)),
+            cache: SharedCache::with_desired_size(std::cmp::max(1, args.cache_size)),
+        };
+
+        Some(Server {
+            tcp_task: tokio::spawn(listen_tcp_task(listen_args.clone(), tcp)),
+            udp_task: tokio::spawn(listen_udp_task(listen_args.clone(), udp)),
+            reload_task: tokio::spawn(reload_task(
+                listen_args.zones_lock.clone(),
+                args.clone(),
+            )),
+            prune_task: tokio::spawn(prune_cache_task(listen_args.cache.clone())),
+            zones_lock: listen_args.zones_lock,
+            cache: listen_args.cache,
+        })
     }
 }
